@@ -204,10 +204,23 @@ int runTyped()
 int main(int argc, char **argv)
 {
   std::string mode = argc > 1 ? argv[1] : "ii";
+#ifndef C10_ONLY
+#define C10_ONLY -1
+#endif
+#if C10_ONLY == -1 || C10_ONLY == 0
   if (mode == "ii") return runTyped<int, int>();
+#endif
+#if C10_ONLY == -1 || C10_ONLY == 1
   if (mode == "ss") return runTyped<std::string, std::string>();
+#endif
+#if C10_ONLY == -1 || C10_ONLY == 2
   if (mode == "si") return runTyped<std::string, int>();
+#endif
+#if C10_ONLY == -1 || C10_ONLY == 3
   if (mode == "is") return runTyped<int, std::string>();
+#endif
+#if C10_ONLY == -1 || C10_ONLY == 4
   if (mode == "ti") return runTyped<TKey, int>();
+#endif
   return 2;
 }
